@@ -83,19 +83,22 @@ def Obs.ev : Obs → Ev
 
 theorem Obs.ev_obs (o : Obs) : o.ev.obs = some o := by cases o <;> rfl
 
-/-- internal events to try: the possible internal steps of every thread that is in the middle of a
-call (only an optimisation of the executable checker: `accepts_sound` holds for any candidate list) -/
+/-- the internal steps thread `t` in state `ts` may be able to take (the candidate lists are only an
+optimisation of the executable checker: `accepts_sound` holds for any candidate list, and
+`cands_complete_*` in `Transfer.lean` shows nothing enabled is left out) -/
+def threadCands (ts : TS) (t : Nat) : List Ev :=
+  match ts with
+  | .lockInv _ => [.lockCS t]
+  | .parked _ _ => [.wakeCS t, .ctxTake t]
+  | .cancelling _ => [.cancelCS t]
+  | .tryInv _ => [.tryCS t]
+  | .relInv _ => [.relSwap t]
+  | .relCS _ => [.relCS t]
+  | _ => []
+
 def internalCandsAux : List TS → Nat → List Ev
   | [], _ => []
-  | ts :: rest, t =>
-    (match ts with
-     | .lockInv _ => [.lockCS t]
-     | .parked _ _ => [.wakeCS t, .ctxTake t]
-     | .cancelling _ => [.cancelCS t]
-     | .tryInv _ => [.tryCS t]
-     | .relInv _ => [.relSwap t]
-     | .relCS _ => [.relCS t]
-     | _ => []) ++ internalCandsAux rest (t + 1)
+  | ts :: rest, t => threadCands ts t ++ internalCandsAux rest (t + 1)
 
 def internalCands (th : List TS) : List Ev := internalCandsAux th 0
 
